@@ -223,9 +223,9 @@ func ruleCallbackBeforeMutation(h *H, rule string) {
 		spec := ir.Callee{Pkg: "server/kv", Recv: "UpdateOperationCallback", Name: pair.cb}
 		for _, s := range h.P.AllCalls(ir.InPkg("server/kv"), spec) {
 			h.Fn(ir.FuncName(s.Fn))
-			muts := h.P.CallsIn(s.Fn, pair.mut)
+			muts := h.callsOrHelpers(s.Fn, pair.mut)
 			if pair.cb == "OnDeleteWithEntry" {
-				muts = append(muts, h.P.CallsIn(s.Fn, batchDelete)...)
+				muts = h.callsOrHelpers(s.Fn, pair.mut, batchDelete)
 			}
 			if len(muts) == 0 {
 				h.Bad(rule, "callback "+pair.cb+" before mutation in "+ir.FuncName(s.Fn), h.pos(s.Call), "no record mutation found after the callback")
